@@ -337,7 +337,14 @@ def generate_root(cfg: Cfg, root_dir: pathlib.Path, out: pathlib.Path, types: li
     list(g.generate_all(False, True, omit, False))
 
 
-def evaluate(work: pathlib.Path, nss: typing.Mapping[str, typing.Any], cfg: Cfg, thorough: bool, use_cache: bool = True) -> Evaluation:
+def evaluate(
+    work: pathlib.Path,
+    nss: typing.Mapping[str, typing.Any],
+    cfg: Cfg,
+    thorough: bool,
+    use_cache: bool = True,
+    only: typing.Optional[typing.Set[typing.Tuple[str, str]]] = None,
+) -> Evaluation:
     """Generate the namespace set `nss` for configuration `cfg` into a fresh directory and judge every generated file."""
     ev = Evaluation()
     shutil.rmtree(work, ignore_errors=True)
@@ -370,7 +377,7 @@ def evaluate(work: pathlib.Path, nss: typing.Mapping[str, typing.Any], cfg: Cfg,
     stray = [r for r in rels if not r.endswith(ext)]
     if stray:
         raise HarnessError(f"unexpected generated file(s) {stray[:3]} for {cfg}")
-    modes = compile_modes(cfg, thorough)
+    modes = [m for m in compile_modes(cfg, thorough) if only is None or (m[0], m[1]) in only]
     env_py = {k: v for k, v in os.environ.items() if k not in ("PYTHONPATH",)}
     env_py.update(PYTHONPATH=f"{out}:{DEPS}", OPENBLAS_NUM_THREADS="1", OMP_NUM_THREADS="1", PYTHONDONTWRITEBYTECODE="1", PYTHONHASHSEED="0")
     for rel in rels:
@@ -579,13 +586,17 @@ def attribute(
     base = set(ctl)
 
     memo: typing.Dict[typing.Tuple[int, ...], typing.Optional[Evaluation]] = {}
+    # bisection only re-runs the compilers that complained about the whole case (all of them for Python / generation)
+    failing_modes = {(f.kind, f.compiler) for f in full.failures if f.kind.endswith("_compile")} or None
+    if failing_modes is not None and any(not f.kind.endswith("_compile") for f in full.failures):
+        failing_modes = None
 
     def run(keep: typing.List[int]) -> typing.Optional[Evaluation]:
         key = tuple(sorted(keep))
         if key not in memo:
             budget[0] += 1
             try:
-                memo[key] = evaluate(work / "bisect", nsspace.assemble(case, keep), cfg, thorough)
+                memo[key] = evaluate(work / "bisect", nsspace.assemble(case, keep), cfg, thorough, only=failing_modes)
             except _Rejected:
                 memo[key] = None  # the reduced namespace is not valid DSDL: out of scope
         return memo[key]
